@@ -13,11 +13,16 @@ import (
 	"testing"
 	"time"
 
+	"github.com/ipfs/go-datastore"
+	dssync "github.com/ipfs/go-datastore/sync"
 	"github.com/libp2p/go-libp2p/core/network"
 	"github.com/libp2p/go-libp2p/core/peer"
 	"github.com/libp2p/go-libp2p/p2p/discovery/backoff"
+	mocknet "github.com/libp2p/go-libp2p/p2p/net/mock"
+	"github.com/libp2p/go-libp2p/p2p/net/conngater"
 
 	"github.com/celestiaorg/celestia-node/share/shwap/p2p/discovery"
+	"github.com/celestiaorg/celestia-node/share/shwap/p2p/shrex/peers"
 
 	"verifharness/vh"
 )
@@ -109,6 +114,7 @@ type run struct {
 	d     *discovery.Discovery
 	set   discovery.VerifSet
 	cn    discovery.VerifConnector
+	mgr   *peers.Manager // the real shrex peer manager, fed by the same callbacks (as nodebuilder wires it)
 	stop  func()
 	conn  map[string]bool // the environment as the model dictates it
 	evq   []string
@@ -131,8 +137,15 @@ func newRun(rep *vh.Report, b *Beh) (*run, error) {
 		return r, nil
 	}
 	h := newFakeHost(r.e)
+	mgr, err := newManager()
+	if err != nil {
+		return nil, err
+	}
+	r.mgr = mgr
+	// the harness's callback is the gate; behind it the report reaches the real peer manager (UpdateNodePool), the
+	// way nodebuilder/share/p2p_constructors.go chains it
 	d, err := discovery.NewDiscovery(&discovery.Parameters{PeersLimit: uint(b.Limit), AdvertiseInterval: time.Hour},
-		h, &stubDisc{r.e}, "full", "v1", discovery.WithOnPeersUpdate(r.e.callback))
+		h, &stubDisc{r.e}, "full", "v1", discovery.WithOnPeersUpdate(r.e.callback), discovery.WithOnPeersUpdate(mgr.UpdateNodePool))
 	if err != nil {
 		return nil, err
 	}
@@ -166,6 +179,21 @@ func (r *run) joinCallers() {
 			r.rep.Inconclusivef("a Peers(ctx) call of behaviour %s did not return after its context was cancelled", r.b.ID)
 		}
 	}
+}
+
+// newManager builds a shrex peer manager like the archival one of nodebuilder (no shrex-sub pools). It is not
+// started: UpdateNodePool works on the node pool alone.
+func newManager() (*peers.Manager, error) {
+	hst, err := mocknet.New().GenPeer()
+	if err != nil {
+		return nil, err
+	}
+	gater, err := conngater.NewBasicConnectionGater(dssync.MutexWrap(datastore.NewMapDatastore()))
+	if err != nil {
+		return nil, err
+	}
+	return peers.NewManager(peers.Parameters{PoolValidationTimeout: time.Minute, PeerCooldown: time.Second, GcInterval: time.Hour,
+		EnableBlackListing: false}, hst, gater, "verif")
 }
 
 func names(e *env, ids []peer.ID) []string {
@@ -214,8 +242,21 @@ func (r *run) observe() *Obs {
 			delete(view, c.P)
 		}
 	}
-	for p := range view {
-		o.View = append(o.View, p)
+	if r.mgr != nil {
+		// the peer manager's pool of discovered nodes IS the view; the callback log must agree with it
+		nodes := r.mgr.VerifNodes()
+		for _, p := range r.b.Peers {
+			if nodes.Has(e.ids[p]) != view[p] {
+				o.View = append(o.View, "pool-differs-from-callback-log:"+p)
+			}
+			if nodes.Has(e.ids[p]) {
+				o.View = append(o.View, p)
+			}
+		}
+	} else {
+		for p := range view {
+			o.View = append(o.View, p)
+		}
 	}
 	for p := range e.prot {
 		o.Prot = append(o.Prot, p)
